@@ -95,6 +95,7 @@ type seqRule struct {
 	maxDepth int
 	trackField string
 	trackAny   []string
+	loadSyms   bool
 	init       kv
 	args       []Value
 }
@@ -138,7 +139,7 @@ func (sr *seqRule) segments(root *Func) []Segment {
 		j := strings.Index(last, "~")
 		return last[:j], last[j+1:], rest
 	}
-	tr := &traceRule{c: sr.c, rule: sr.rule, noInline: sr.noInline, maxDepth: sr.maxDepth, relevant: sr.relevant, trackField: sr.trackField, trackAny: sr.trackAny, args: sr.args}
+	tr := &traceRule{c: sr.c, rule: sr.rule, noInline: sr.noInline, maxDepth: sr.maxDepth, relevant: sr.relevant, trackField: sr.trackField, trackAny: sr.trackAny, loadSyms: sr.loadSyms, args: sr.args}
 	tr.classify = sr.classify
 	tr.step = func(s kv, ev Ev) kv {
 		switch {
